@@ -7,6 +7,7 @@ importing this module is enough - also for the resumed run, which reads the name
 import numpy as np
 
 from tenpy.models.model import CouplingMPOModel, NearestNeighborModel
+from tenpy.models.tf_ising import TFIChain
 from tenpy.networks.site import SpinHalfSite
 
 
@@ -30,6 +31,24 @@ class DrivenXXZ(CouplingMPOModel, NearestNeighborModel):
             self.add_coupling(Jz, u1, 'Sz', u2, 'Sz', dx)
         self.add_onsite(h * np.cos(w * t), 0, 'Sz')
         self.add_onsite(h * np.sin(w * t), 0, 'Sx')
+
+
+class DisorderedTFI(TFIChain):
+    """Transverse-field Ising chain with random fields g_i = g + W x_i, x_i uniform in [0, 1), drawn when the model
+    is built: from numpy's global (legacy) generator, which `Simulation.random_seed` seeds, or from the model's own
+    `rng` (seeded by `model_params['random_seed']`, which the simulation derives from its `random_seed`).  The
+    model is built again when a simulation is resumed; the same disorder realisation has to come out."""
+
+    def init_terms(self, model_params):
+        J = np.asarray(model_params.get('J', 1.0, 'real_or_array'))
+        g = np.asarray(model_params.get('g', 1.0, 'real_or_array'))
+        W = model_params.get('W', 0.3, 'real')
+        source = model_params.get('disorder_source', 'np', str)
+        L = self.lat.N_sites
+        x = np.random.random(L) if source == 'np' else self.rng.random(L)
+        self.add_onsite(-(g + W * x), 0, 'Sigmaz')
+        for u1, u2, dx in self.lat.pairs['nearest_neighbors']:
+            self.add_coupling(-J, u1, 'Sigmax', u2, 'Sigmax', dx)
 
 
 def constant_measurement(value=1.0):
